@@ -150,9 +150,17 @@ Reference(w, q, align) == LET a == IF align THEN AlignQ(q) ELSE q IN Direct(w, a
 EmptyResp == [k \in {} |-> <<>>]
 Down(w, r) == Direct(w, r.s, r.e, r.st)          \* the querier answers faithfully
 
-(* PrometheusResponse.minTime: first sample of the first series, -1 when empty.  *)
+(* PrometheusResponse.minTime: the earliest first sample over all series, -1 when empty.       *)
+(* (Before the fix it looked at the first series only -- MinTimeAllSeries = FALSE reproduces    *)
+(* that: a series that starts exactly at an extent boundary then ties with the neighbouring     *)
+(* response, the stable sort keeps the later response first and matrixMerge drops samples.)     *)
+MinTimeAllSeries == TRUE
 MinSeries(S) == CHOOSE k \in S : \A j \in S : k <= j
-RespMinTime(r) == IF DOMAIN r = {} THEN -1 ELSE r[MinSeries(DOMAIN r)][1]
+RespMinTime(r) ==
+    IF DOMAIN r = {} THEN -1
+    ELSE IF MinTimeAllSeries
+      THEN LET firsts == { r[k][1] : k \in DOMAIN r } IN CHOOSE m \in firsts : \A x \in firsts : m <= x
+      ELSE r[MinSeries(DOMAIN r)][1]
 
 (* sort.Sort(byFirstTime) on fewer than 12 elements is an insertion sort: stable.  *)
 RECURSIVE InsertByMinTime(_, _)
